@@ -1,13 +1,15 @@
 #!/venv/bin/python
 """Verify a sub-agent's seeded change and file it under /verif/seeded/<name>/.
-usage: seed_verify.py <PID> <name> [checks...]
-Expects /tmp/wt/<PID> (worktree with the change) and /tmp/wt/out/<PID>/{patch.diff,demo.py,notes.md}."""
-import json, os, shutil, subprocess, sys
+usage: seed_verify.py <WORKTREE-ID> <name> [checks...]
+Expects /tmp/wt/<ID> (worktree with the change) and /tmp/wt/out/<ID>/{patch.diff,demo.py,notes.md}.
+The checks run against a scratch clone of /repo with the patch applied (VERIF_REPO), so /repo is never touched."""
+import json, os, re, shutil, subprocess, sys, tempfile
 HERE = os.path.dirname(os.path.dirname(os.path.abspath(__file__)))
-pid, name = sys.argv[1], sys.argv[2]
+wid, name = sys.argv[1], sys.argv[2]
+pid = re.match(r"C\d\d", wid).group(0)
 checks = sys.argv[3:] or [pid]
-wt = "/tmp/wt/" + pid
-out = "/tmp/wt/out/" + pid
+wt = "/tmp/wt/" + wid
+out = "/tmp/wt/out/" + wid
 def run(cmd, **kw):
     return subprocess.run(cmd, capture_output=True, text=True, **kw)
 base = run([os.path.join(HERE, "tools", "baseline.py"), wt]).stdout.strip().splitlines()
@@ -15,7 +17,6 @@ print("baseline on worktree:", base[0] if base else "?")
 demo_wt = run(["/venv/bin/python", os.path.join(out, "demo.py"), wt])
 demo_repo = run(["/venv/bin/python", os.path.join(out, "demo.py"), "/repo"])
 print("demo: worktree exit=%d, /repo exit=%d" % (demo_wt.returncode, demo_repo.returncode))
-# regenerate the patch from the worktree itself
 diff = run(["git", "-C", wt, "diff", "--", "cutplace"]).stdout
 target = os.path.join(HERE, "seeded", name)
 os.makedirs(target, exist_ok=True)
@@ -23,17 +24,33 @@ open(os.path.join(target, "patch.diff"), "w").write(diff)
 shutil.copy(os.path.join(out, "demo.py"), os.path.join(target, "demo.py"))
 if os.path.exists(os.path.join(out, "notes.md")):
     shutil.copy(os.path.join(out, "notes.md"), os.path.join(target, "notes.md"))
+scratch = tempfile.mkdtemp(prefix="seed_%s_" % name)
 results = {}
-done = run([os.path.join(HERE, "tools", "try_patch.py"), os.path.join(target, "patch.diff")] + checks)
-print(done.stdout.strip(), done.stderr.strip()[-500:])
-for line in done.stdout.splitlines():
-    parts = line.split()
-    if parts and parts[0] in checks:
-        results[parts[0]] = line
+try:
+    tree = os.path.join(scratch, "repo")
+    subprocess.run(["git", "clone", "-q", "/repo", tree], check=True)
+    applied = run(["git", "-C", tree, "apply", os.path.join(target, "patch.diff")])
+    if applied.returncode != 0:
+        print("PATCH DOES NOT APPLY to current /repo HEAD:", applied.stderr[:300])
+    else:
+        for check in checks:
+            env = dict(os.environ, VERIF_REPO=tree, VERIF_OUT=os.path.join(scratch, "out"), VERIF_NO_REPLAY_CHECK="1")
+            done = run([os.path.join(HERE, "check"), check, "--tier", "quick"], env=env, cwd=HERE)
+            lines = done.stdout.splitlines()
+            sigs = [l.strip() for l in lines if l.strip().startswith("sig=")]
+            results[check] = "%s exit=%d violations=%d %s" % (check, done.returncode, sum(1 for l in lines if l.startswith("VIOLATION")), "; ".join(sigs[:3]))
+            print(results[check][:400])
+            if done.returncode not in (0, 1):
+                print(done.stdout[-1500:], done.stderr[-1500:])
+finally:
+    shutil.rmtree(scratch, ignore_errors=True)
 ok = bool(base) and "stable_missing=0" in base[0] and demo_wt.returncode == 1 and demo_repo.returncode == 0
 meta = {"property": pid, "name": name, "confirmed": ok, "baseline_on_worktree": base[0] if base else None,
         "demo_exit_with_change": demo_wt.returncode, "demo_exit_unchanged": demo_repo.returncode,
-        "ran": ["tools/baseline.py <worktree>", "demo.py <worktree>", "demo.py /repo", "tools/try_patch.py patch.diff " + " ".join(checks)],
+        "ran": ["tools/baseline.py <worktree>", "demo.py <worktree>", "demo.py /repo", "./check <id> --tier quick with VERIF_REPO=<scratch clone + patch.diff>"],
         "check_results_quick": results}
+if os.path.exists(os.path.join(target, "meta.json")):
+    old = json.load(open(os.path.join(target, "meta.json")))
+    meta["needs_to_manifest"] = old.get("needs_to_manifest")
 json.dump(meta, open(os.path.join(target, "meta.json"), "w"), indent=1)
 print("confirmed" if ok else "NOT CONFIRMED", "->", target)
